@@ -37,6 +37,14 @@ def variants_other(r, case, keep):
         c["genes"].append({"name": nm + "_g", "chrom": nm, "start": 500, "stop": 900, "strand": "-"})
         c["tes"].append({"chrom": nm, "start": 100, "stop": 700, "order": r.choice(case["tes"])["order"], "superfam": "X_super", "strand": "+"})
         c["variant"] = "added chromosome " + nm; out.append(c)
+    # a TE of another chromosome altered into a degenerate record (Stop before Start): whatever is made of it there, not here
+    if others:
+        c = copy.deepcopy(case)
+        cand = [t for t in c["tes"] if t["chrom"] != keep]
+        if cand:
+            t = r.choice(cand)
+            t["stop"] = max(1, t["start"] - r.randint(1, 40))
+            c["variant"] = "a TE of another chromosome altered into a record with Stop < Start"; out.append(c)
     # add genes to other chromosomes
     if others:
         c = copy.deepcopy(case)
@@ -113,6 +121,14 @@ def run(chk):
         keep = r.choice(chs)
         vs = variants_other(r, base, keep)
         mm = mismatch_cases(r, base)
+        # the mismatching gene annotation also in an output directory where the matching pair was processed before, the edited file
+        # carrying a modification time older than every intermediate of that run
+        for m in list(mm):
+            if m["tes"] == base["tes"]:
+                m2 = copy.deepcopy(m)
+                m2["before"] = {"case": {k: base[k] for k in ("genes", "tes", "windows")}, "genome": "G", "backdate_inputs": True, "same_names": True}
+                m2["variant"] += " (directory used for the matching pair, older modification time)"
+                mm.append(m2)
         plan.append((base, keep, vs, mm, len(reqs)))
         reqs += [base] + vs + mm
     reps = pipefam.run_impl(reqs)
